@@ -544,5 +544,6 @@ Spec == Init /\ [][Next]_vars
 NoViolation == viol = {}
 
 \* observation-only parts of the state are hidden from the fingerprint in exhaustive runs
-View == <<cfg, reqs, codes, redeemed, toks, rts, idts, devs, cnt, viol>>
+\* (the step counter is hidden too: BFS reaches every state first by a shortest history, so the MaxSteps guard stays exact)
+View == <<cfg, reqs, codes, redeemed, toks, rts, idts, devs, [cnt EXCEPT !.n = 0], viol>>
 =============================================================================
